@@ -42,6 +42,7 @@ using std::string;
 // Nesting depth of expand_manifest() calls, and its limit; see get_identifier().
 static int manifest_expansion_depth = 0;
 static const int max_manifest_expansion_depth = 200;
+static const int max_manifest_expansions_per_invocation = 20000;
 
 // We manage our own visibility counter, in addition to that managed by
 // cppBison.y.  We do this just so we can define manifests with the correct
@@ -2507,6 +2508,30 @@ get_literal(int token, YYLTYPE loc, const string &str, const YYSTYPE &value) {
  */
 CPPToken CPPPreprocessor::
 expand_manifest(const CPPManifest *manifest, const YYLTYPE &loc) {
+  // Every expansion that results from one macro invocation reports the
+  // position of that invocation.  Macros that keep regenerating each other
+  // (possible because function-like macros may be expanded again while their
+  // expansion is rescanned) would go on forever, so give up on an invocation
+  // once it has caused an absurd number of expansions.
+  static int last_line = -1, last_column = -1, num_repeats = 0;
+  if (loc.first_line == last_line && loc.first_column == last_column) {
+    if (++num_repeats > max_manifest_expansions_per_invocation) {
+      num_repeats = 0;
+      error("macro " + manifest->_name + " expands endlessly; giving up", loc);
+      while (_infile != nullptr && _infile->_manifest != nullptr) {
+        // Discard the pending expansions.
+        InputFile *infile = _infile;
+        _infile = infile->_parent;
+        delete infile;
+      }
+      return CPPToken::eof();
+    }
+  } else {
+    last_line = loc.first_line;
+    last_column = loc.first_column;
+    num_repeats = 0;
+  }
+
   vector_string args;
 
   if (manifest->_has_parameters) {
